@@ -6,7 +6,7 @@ CONSTANTS
   ParamTables <- ParQuick
   FLen = 2
   Alias <- AliasBeef
-  Bug = "suffix"
+  Bug = "openfail"
   MaxConnect = 2
   MaxCrash = 1
   MaxOther = 0
